@@ -116,4 +116,12 @@ M = [
  ("m91-ensure-protocol-no-rstrip", "C20", "ural/ensure_protocol.py", '    protocol = protocol.rstrip(":/")\n', "    pass\n"),
  ("m92-format-url-unsorted", "C20", "ural/format_url.py", "iterator = sorted(args.items()) if isinstance(args, dict) else iter(args)", "iterator = iter(args.items()) if isinstance(args, dict) else iter(args)"),
  ("m93-format-url-double-slash", "C20", "ural/format_url.py", '        url = base_url.rstrip("/") + "/" + path.lstrip("/")', '        url = base_url.rstrip("/") + "/" + path'),
+
+ # data tables and constant sets
+ ("m94-tracking-key-lost", "C04", "ural/normalize_url.py", "|twclid|mibextid|", "|twclid|"),
+ ("m95-ref-combo-value-lost", "C04", "ural/normalize_url.py", '            "shortener",\n', ""),
+ ("m96-iso-code-lost", "C06", "ural/data.py", '    "AD",\n', ""),
+ ("m97-shortener-domain-lost", "C18", "ural/is_shortened_url.py", '    "bit.ly",\n', ""),
+ ("m98-suffix-rule-lost", "C08", "ural/tld_data.py", '    "co.uk",\n', ""),
+ ("m99-irrelevant-subdomain-digit", "C04", "ural/normalize_url.py", r"(?:www\d?|mobile%s|m)\.", r"(?:www[1-4]?|mobile%s|m)\."),
 ]
